@@ -25,6 +25,7 @@ import (
 	"time"
 	"unicode/utf16"
 	"unicode/utf8"
+	"unsafe"
 
 	"github.com/valyala/bytebufferpool"
 	"golang.org/x/text/transform"
@@ -978,4 +979,71 @@ func TestValidator_MSGID(t *testing.T) {
 		check(id)
 	}
 	ok(t, "C17-MSGID", n, "all 3^7 combinations of {0, 1, max} per field, every single-bit id and every low-ones id, random 64-bit ids (a quarter of them shifted right by a random amount)")
+}
+
+// BOUNDED stand-in for an aspect of C12 the verifier's model does not cover: the elements of the [][]byte a splitter
+// returns. Octet slices carry no capacity in the model, so "no part's memory (up to its capacity) overlaps another
+// part's" is not a clause there; here it is checked on the real functions, over a corpus: every pair of parts of every
+// result must have disjoint backing ranges [data, data+cap), and appending to a part must leave the others unchanged.
+func TestValidator_SPLITOWN(t *testing.T) {
+	ctx := context.Background()
+	n := 0
+	type run struct {
+		name  string
+		parts [][]byte
+	}
+	var texts []string
+	for _, l := range []int{141, 160, 161, 300, 459, 1000} {
+		texts = append(texts, strings.Repeat("a", l), strings.Repeat("a[", l/2), strings.Repeat("\u4f60\u597d", l/2), strings.Repeat("\u00e9", l))
+	}
+	for _, content := range texts {
+		var runs []run
+		for _, c := range []int{0, 8, 9, 15} {
+			if parts, _, err := protocol.EncodeCMPPContentAndSplit(ctx, content, datacoding.CMPPDataCoding(c), 7); err == nil {
+				runs = append(runs, run{fmt.Sprintf("CMPP coding %d, %d characters", c, utf8.RuneCountInString(content)), parts})
+			}
+		}
+		for _, c := range []int{0, 1, 3, 8, 99} {
+			if parts, _, err := protocol.EncodeSMPPContentAndSplit(ctx, content, datacoding.SMPPDataCoding(c), 7); err == nil {
+				runs = append(runs, run{fmt.Sprintf("SMPP coding %d, %d characters", c, utf8.RuneCountInString(content)), parts})
+			}
+		}
+		for _, r := range runs {
+			for i := range r.parts {
+				for j := i + 1; j < len(r.parts); j++ {
+					a, b := r.parts[i], r.parts[j]
+					if cap(a) == 0 || cap(b) == 0 {
+						continue
+					}
+					pa, pb := uintptr(unsafe.Pointer(&a[:1][0])), uintptr(unsafe.Pointer(&b[:1][0])) // first element of the backing range (cap > 0)
+					if pa < pb+uintptr(cap(b)) && pb < pa+uintptr(cap(a)) {
+						t.Logf("VALIDATOR-FAIL C12-SPLITOWN %s: parts %d and %d of %d share backing memory (capacities %d and %d overlap): appending to one overwrites the other", r.name, i, j, len(r.parts), cap(a), cap(b))
+						t.Fail()
+						return
+					}
+					n++
+				}
+			}
+			// the observable consequence: extend every part to its capacity and scribble; the others keep their octets
+			snap := make([][]byte, len(r.parts))
+			for i, p := range r.parts {
+				snap[i] = append([]byte(nil), p...)
+			}
+			for i, p := range r.parts {
+				full := p[:cap(p)]
+				for k := len(p); k < len(full); k++ {
+					full[k] = 0xEE
+				}
+				for j, q := range r.parts {
+					if j != i && !bytes.Equal(q, snap[j]) {
+						t.Logf("VALIDATOR-FAIL C12-SPLITOWN %s: part %d changed after the spare capacity of part %d was written", r.name, j, i)
+						t.Fail()
+						return
+					}
+				}
+				n++
+			}
+		}
+	}
+	ok(t, "C12-SPLITOWN", n, "24 texts (ASCII, GSM escapes, CJK, Latin-1; 141..1000 characters) x 4 CMPP + 5 SMPP codings: pairwise disjoint backing ranges of the parts, spare capacity written")
 }
